@@ -17,15 +17,11 @@ func init() {
 			Kind: slip.MacroSymbol,
 			Name: "setq",
 			Args: []*slip.DocArg{
+				{Name: "&rest"},
 				{
-					Name: "symbol",
-					Type: "symbol",
-					Text: "The symbol to bind to the _value_.",
-				},
-				{
-					Name: "value",
+					Name: "pairs",
 					Type: "object",
-					Text: "The value to assign to _symbol.",
+					Text: "Alternating _symbol_ and _value_ arguments. Each _symbol_ is assigned the _value_ that follows it.",
 				},
 			},
 			Return: "object",
